@@ -6,6 +6,8 @@ LEVEL_NOTE = ("Trusted base: CPython 3.12 (/venv/bin/python), eval/tokenize/frac
               "oracles under /verif/vf, and that sfc_models imports from the /repo working tree (asserted at "
               "start, recorded in evidence).")
 CLAIMS = {
+ 'C02': ("post-solve residual monitor with scheme-agnostic bound, finiteness, pinned lags/exogenous, exact derived-only values; hostile overflow / inf-nan / failpoint systems",
+         "Held on K observed solves: every normal return of the real solver is judged equation by equation against the submitted text by an independent evaluator; hostile systems must fail loudly or be finite and consistent. First-order bound for non-linear systems.", "3/C02"),
  'C12': ("value-preservation post-condition on AddTerm histories and create_equation_from_terms (exact valuations); in-situ AddTerm wrapper",
          "Held on K observed histories: after every AddTerm the rendered RHS compiles and equals lead + signed sum under exact valuations; term lists keep their sum and the caller's list. Leads with a top-level operator weaker than '+' are outside the generated class.", "3/C12"),
  'C13': ("by-construction token lists + token-stream hygiene + value preservation under non-merging maps; in-situ wrappers on the three token functions",
